@@ -2,6 +2,9 @@
 (rules as written), over sequences of term indices. Used only to FIND and JUDGE failing inputs."""
 
 def earley(rules, root, tokens, is_term):
+    return _chart(rules, root, tokens, is_term)[0]
+
+def _chart(rules, root, tokens, is_term):
     """rules: list of (lhs, [symbols]); symbols are hashable; is_term(sym) -> token value or None. returns bool"""
     n = len(tokens)
     by_l = {}
@@ -43,4 +46,30 @@ def earley(rules, root, tokens, is_term):
                     if dk < len(rr) and rr[dk] == l:
                         it = (rk, dk + 1, ok)
                         if it not in S[i]: S[i].add(it); work.append(it)
-    return (-1, 1, 0) in S[n]
+    return ((-1, 1, 0) in S[n], len(S[n]) > 0)
+
+def first_bad(rules, root, tokens, is_term):
+    """index of the first token after which no valid prefix remains (Earley chart empty), len(tokens) when only the end is wrong, None when accepted"""
+    for k in range(len(tokens)):
+        if not viable(rules, root, tokens[:k + 1], is_term): return k
+    return None if earley(rules, root, tokens, is_term) else len(tokens)
+
+def viable(rules, root, tokens, is_term):
+    return _chart(rules, root, tokens, is_term)[1]
+
+def productive_part(rules, root, is_term):
+    """rules restricted to productive nonterminals (those deriving some terminal string); returns (rules, has_reachable_nonproductive)"""
+    prod = set(); ch = True
+    while ch:
+        ch = False
+        for l, r in rules:
+            if l not in prod and all(is_term(x) is not None or x in prod for x in r): prod.add(l); ch = True
+    keep = [(l, r) for l, r in rules if l in prod and all(is_term(x) is not None or x in prod for x in r)]
+    reach = {root}; ch = True
+    while ch:
+        ch = False
+        for l, r in rules:
+            if l in reach:
+                for x in r:
+                    if is_term(x) is None and x not in reach: reach.add(x); ch = True
+    return keep, any(n not in prod for n in reach)
